@@ -213,6 +213,13 @@ def c02(ctx, node, mname, meta=None):
     if dict(t2.metadata) != dict(meta or {}):
         ctx.fail('metadata-lost', detail={'meta': meta, 'got': dict(t2.metadata)},
                  payload=payload(node, mname, meta=meta))
+    if mname == 'default' and ctx.evaluations % 4 == 0:
+        # leaving the model out means the default model
+        ok, g0 = ctx.call(penman.interpret, tree, clause='interpret(no model)')
+        ok2, t0 = ctx.call(penman.configure, g, clause='configure(no model)')
+        if ok and ok2 and (list(g0.triples) != list(g.triples) or t0.node != t2.node):
+            ctx.fail('no-model-argument!=default-model', detail={'text': _fmt(node)},
+                     payload=payload(node, mname, meta=meta))
     return g
 
 
